@@ -124,6 +124,25 @@ MUT["C01"] = [
 ]
 
 
+MUT["C04"] = [
+    dict(id="c04-sign", what="improvement computed as f_new - f_base", path=P_BADS, functions=[B + "._poll_step_", B + "._search_step_"],
+         old="            z = f_base - f_new\n        else:\n            # This needs to be corrected -- but for q=0.5 it does not matter\n            mu = f_base - f_new",
+         new="            z = f_base - f_new\n        else:\n            # This needs to be corrected -- but for q=0.5 it does not matter\n            mu = f_new - f_base", expect="c04"),
+    dict(id="c04-argmax", what="incumbent := argmax over the initial design", path=P_BADS, functions=[B + "._init_mesh_"],
+         old="                idx_yval = np.argmin(\n                    self.function_logger.Y[: self.function_logger.Xn + 1]\n                )",
+         new="                idx_yval = np.argmax(\n                    self.function_logger.Y[: self.function_logger.Xn + 1]\n                )", expect="c04_incumbent_minimal"),
+    dict(id="c04-search-always-moves", what="search moves the incumbent even without improvement", path=P_BADS, functions=[B + "._search_step_"],
+         old="        # A search improvement implies an update of the incumbent\n        if is_search_improved:", new="        # A search improvement implies an update of the incumbent\n        if is_search_improved or u_search_set.size > 0:", expect="c04_incumbent_minimal"),
+    dict(id="c04-running-best-base", what="poll improvement measured against the running best poll point", path=P_BADS, functions=[B + "._poll_step_"],
+         old="            poll_improvement = self._eval_improvement_(\n                self.fval,\n                f_poll,\n                self.fsd,\n                f_sd_poll,",
+         new="            poll_improvement = self._eval_improvement_(\n                f_poll_best,\n                f_poll,\n                f_sd_poll_best,\n                f_sd_poll,", expect="c04"),
+    dict(id="c04-wrong-value", what="incumbent value taken from the GP estimate slot of another point", path=P_BADS, functions=[B + "._poll_step_"],
+         old="                y_poll_best = y_poll\n", new="                y_poll_best = y_poll_best\n", expect="c04"),
+    dict(id="c04-result-other-point", what="returned x computed from u instead of the incumbent after a late move", path=P_BADS, functions=[B + ".optimize"],
+         old="        self.x = self.var_transf.inverse_transf(self.u)", new="        self.x = self.var_transf.inverse_transf(self.optim_state[\"u\"])", expect="result_is_best_evaluated_point"),
+]
+
+
 def scan_c01(index, registry):
     return scans.target_call_sites(index, registry)
 
@@ -186,6 +205,15 @@ PROPS = {
         mutants=MUT["C01"],
         explanation="Clamp postconditions of both transform directions for every finite input; the single target call site receives inverse_transf(x)[0] (in the hard box for every x); "
                     "rows handed to non_box_cons by the candidate filter are images of inverse_transf; returned x is an image of inverse_transf.",
+    ),
+    "C04": dict(
+        level="proof",
+        native=[panel('C04', 8, 40, kinds="det")], replay=replay('C04', 40),
+        functions=[FL + "._record", FL + ".__call__", B + "._init_mesh_", B + "._init_optimization_", B + "._search_step_", B + "._poll_step_", B + ".optimize"],
+        mutants=MUT["C04"],
+        explanation="Invariant of the deterministic incumbent (uncertainty level 0, default improvement policy): (u_best, yval) is a logged evaluation (existential over log rows, "
+                    "points as values), no logged value is below yval, fval == yval, fsd == 0; established by the argmin over the initial design, preserved by the poll loop "
+                    "(best-so-far logged and minimal), the search step and the main loop; result x == inverse_transf(u_best) is the original-space point of that log row.",
     ),
     "C03": dict(
         level="proof",
